@@ -319,8 +319,14 @@ class Runner:
                 base = self.algo.learn(env, policy, total, key=key)
                 jax.block_until_ready(base)
                 tr.ev("baseline", digest=leaves_digest(base)[:16])
-                after = array_leaves(policy)
-                if len(before) != len(after) or any(x.tobytes() != y.tobytes() for x, y in zip(before, after)):
+                try:
+                    after = array_leaves(policy)
+                except Exception as exc:  # noqa: BLE001  (e.g. buffers of the input policy donated / deleted by training)
+                    res.fail("C11", "input_policy_untouched", "input_policy_buffers_unusable_after_learn", message=f"{type(exc).__name__}: {str(exc)[:160]}")
+                    after = None
+                if after is None:
+                    pass
+                elif len(before) != len(after) or any(x.tobytes() != y.tobytes() for x, y in zip(before, after)):
                     res.fail("C11", "input_policy_untouched", "input_policy_leaves_changed")
                 else:
                     res.ok("C11", "input_policy_untouched")
